@@ -3,8 +3,13 @@ CHECK = {
     "level": "exploration",
     "assumptions": [
         "the scheduler never sends an instance name suffix / digest function the worker cannot parse (the scheduler validated them when the client submitted the action)",
-        "the scheduler never leaves desired_state unset in reply to a Completed report (InMemoryBuildQueue.completeTask always answers with the next task or Idle); such drawn replies are replaced by Idle and counted under excluded_by_generator",
-        "BuildExecutor.Execute always returns a non-nil ExecuteResponse and sends progress updates with plain blocking sends (as every executor in pkg/builder does)",
+        "the scheduler never leaves desired_state unset in reply to a Completed report (InMemoryBuildQueue.completeTask always answers with the next task or Idle); two thirds of such drawn replies are replaced by Idle and counted under excluded_by_generator, one third (drawn permission nil_to_completed) is sent as drawn: the request/executor oracles then apply unchanged (the worker must keep reporting Completed with the same response), but the 'missed the last provided next-sync by more than a minute' branch of the may-terminate oracle is not judged until the next valid execute/idle reply, because BuildClient then derives its one-minute bound from a synchronisation time it lowered itself (observation O1 in fakes_test.go, unreachable with replies a scheduler sends)",
+        "BuildExecutor.Execute always returns a non-nil ExecuteResponse and sends progress updates with plain blocking sends (as every executor in pkg/builder does: localBuildExecutor and noopBuildExecutor return NewDefaultExecuteResponse(request) on every path, the decorators dereference response.Result without a nil test, and BuildClient.Run itself reads Completed.Status of the reported response; a nil response would be a caller bug that crashes the worker, so it is not generated)",
+        "ASSUMPTION stricter than the property text, matches the current code: a reply whose next_synchronization_at is absent/invalid is discarded as a whole, so Execute must never start for the action such a reply carried (BuildClient.Run returns the timestamp error before looking at desired_state)",
+        "ASSUMPTION stricter than the property text, matches the current code: one BuildClient.Run performs at most one Synchronize call (run_model hands out exactly one scripted reply per Run and reports a second call as a violation)",
+        "freshness/completion oracle: when Run reaches its select with execution updates already buffered (or the channel closed), it takes them even if the synchronisation timer is also due, and reports the latest state ('Send a new update with the latest state, regardless of the next synchronization time', build_client.go Run). The fake clock of run_model fires timers only when the script says so, so the other outcome Go's select could pick with a real, already expired timer (report the previous state once more) is not generated for this oracle; in the loop test the demand is made only when the previous reply carried a next-sync strictly in the future, i.e. the timer cannot be due",
+        "freshness/completion oracle: 'available at Run entry' is judged conservatively from outside: buffered items are counted with len() on the executor's end of the update channel at an instant where every goroutine is durably blocked; Completed is demanded only if Execute had returned and the buffer was not full (then the sending goroutine cannot be blocked, so Completed is in the buffer or was consumed before); with a full buffer only the newest progress update whose send completed is demanded",
+        "loop test livelock backstop: 3000 Synchronize calls at one instant of bubble time are reported as a violation of the 'eventually returns after shutdown / keeps synchronizing' oracle (the unchanged worker issues at most a few dozen: one per zero-latency scripted reply plus one per batch of execution updates); without it a worker that spins at one bubble instant ends as an inconclusive real-time time-out instead of a violation",
         "a Synchronize call given an already cancelled context fails like a gRPC call would; an RPC error means the request may or may not have reached the scheduler",
         "harness process runs with GOMAXPROCS=1 so that the interleaving of Run with the executor goroutine is decided by the generated script (one generated yield point inside Timer.Stop)",
     ],
@@ -18,7 +23,7 @@ CHECK = {
     ],
 }
 META = {
-    "text": "Generated search (rapid scripts inside testing/synctest bubbles) over scheduler reply sequences, executor progress/completion timings, readiness failures and shutdown instants against the real BuildClient.Run and LaunchWorkerThread; the oracle is a history model kept by the scripted scheduler and the instrumented executor (object identity of reported updates/responses, one Execute at a time, prefer_being_idle rules, may-terminate rule). Exploration only: no proof of absence.",
+    "text": "Generated search (rapid scripts inside testing/synctest bubbles) over scheduler reply sequences, executor progress/completion timings, readiness failures and shutdown instants against the real BuildClient.Run and LaunchWorkerThread; the oracle is a history model kept by the scripted scheduler and the instrumented executor (object identity of reported updates/responses, one Execute at a time, prefer_being_idle rules, may-terminate rule, freshness/completion rule: what had reached the update channel before Run looked at it - the newest buffered progress update, or Completed once Execute has returned - must be in the request). Exploration only: no proof of absence.",
     "design_ref": "6/C08",
     "note": "Trusts the hand-written fakes (scripted OperationQueueClient, parking BuildExecutor, fake clock) and the history model of what the scheduler may believe; goroutine scheduling inside one Run call is fixed by GOMAXPROCS=1 plus one generated yield point; when a due timer and a pending update race in Run's select the update is taken (the other legal choice is reached by firing the timer before emitting). The loop test's back-off sleeps use LaunchWorkerThread's own unseeded generator, so its timings are not replayable bit for bit.",
     "technique": "stateful property-based testing (rapid) with harness-owned schedule and clock (testing/synctest) against a history model",
